@@ -1,7 +1,7 @@
 (* C19 — One writer at a time; read-only handles never modify data.
    The lock is flock(2) of the operating system; the model is the shared/exclusive lock table of Flock.v
    (validated against real handles, in-process and in a child process, on every run). *)
-From KV Require Import Base Model Flock FlockProofs.
+From KV Require Import Base Model Flock FlockProofs OpenProofs.
 
 (* in every lock table reachable by any sequence of Open (either mode, succeeding or failing), Close,
    Publish, Delete: an exclusive lock excludes every other handle *)
@@ -52,3 +52,11 @@ Proof.
   split; reflexivity.
 Qed.
 Print Assumptions C19_readonly_rejects_log.
+
+(* a read-only Open - plain, with Check, or with Recover (which only checks on a read-only handle) - leaves every
+   file of the directory exactly as it was *)
+Theorem C19_readonly_open_changes_no_file :
+  forall (H : bytes -> Z) st c0 st',
+  cro c0 = true -> segs st <> [] -> log_open H st c0 = Ok st' -> segs st' = segs st.
+Proof. exact log_open_readonly_keeps_dir. Qed.
+Print Assumptions C19_readonly_open_changes_no_file.
